@@ -1,13 +1,17 @@
 (* Run/C13.v — case decoder / observable encoder for the C13 correspondence.
-   case = ( db ops )
+   case = ( db ops ) | ( db ops 1 )     the second form is "quiet": no dump between ops
      db  = ( (addr nonce balance code ((slot value) ...)) ... )   committed pre-state
-     ops = ( (tag args...) ... )      tags: see [dec_op]
-   output = one item per op: ( out dump ) where out = 0 none | 1 panic | id+2, and
-   dump = all getters over addresses 1..4, slots 0..3, tx hashes 1..5 (see [dump_with]).
-   [C13_run] runs the implementation model State/Journal.v; [C13_run_ref] runs the
-   reference State/Ref.v (used by the Coq-side cross-check only). *)
+     ops = ( (tag args...) ... )      tags 0..19: StateDB calls, see [dec_op];
+                                      (20 rules) IntermediateRoot, (21 a k) one read, see [dec_rop]
+   output = one item per op: ( x dump ) where x = out (0 none | 1 panic | id+2) for a call,
+   ( out x<root> ) for IntermediateRoot, and just ( GetState GetCommittedState Exist ) for a
+   read; dump = all getters over addresses 1..4, slots 0..3, tx hashes 1..5 (see
+   [dump_with]).  Quiet: x per op, one dump at the end.  Last item: the model-side check
+   that the reference model agrees (getters, return values, and the model root at every
+   IntermediateRoot).  [C13_run] runs the implementation model State/Journal.v;
+   [C13_run_ref] runs the reference State/Ref.v (used by hand only). *)
 From stdpp Require Import gmap.
-From GV Require Import Lib.Sx State.Ref State.Journal.
+From GV Require Import Lib.Sx Keccak.Sponge State.Ref State.Journal State.Root.
 Local Open Scope N_scope.
 
 Definition dec_rules (n : N) : rules :=
@@ -98,29 +102,66 @@ Definition all_queries : list query :=
 
 Definition dump_with (q : query → answer) : sx := SL (map (λ x, enc_answer (q x)) all_queries).
 
-Fixpoint run_dump_j (j : jstate) (ops : list op) : list sx :=
-  match ops with
-  | [] => []
-  | o :: rest =>
-      let '(j', w) := step_j j o in
-      (if j_bad j' then SErr 99 else SL [enc_out w; dump_with (query_j j')]) :: run_dump_j j' rest
+(* ---- run-level operations: a StateDB call, IntermediateRoot, or a single read ----
+   (20 rules)  StateDB.IntermediateRoot(rules): on the models it is Finalise (the fields it
+               changes besides - StateDB.mutations/applied, uncommittedStorage, data.Root,
+               tries - are not part of the C13 models); its return value is compared with
+               the MODEL ROOT computed from scratch from the model's accounts (State/Root.v)
+   (21 a k)    a read of one slot: ( GetState GetCommittedState Exist ) - pure on the
+               models, fills read caches of the implementation (used in quiet histories) *)
+Definition K := keccak256.
+Inductive rop := ROp (o : op) | RRoot (r : rules) | RPeek (a : addr) (k : slot).
+
+Definition dec_rop (s : sx) : option rop :=
+  match s with
+  | SL [SI 20%Z; r] => RRoot ∘ dec_rules <$> sx_N r
+  | SL [SI 21%Z; a; k] => match sx_N a, sx_N k with Some a, Some k => Some (RPeek a k) | _, _ => None end
+  | _ => ROp <$> dec_op s
   end.
 
-Fixpoint run_dump_r (s : rstate) (ops : list op) : list sx :=
+Definition enc_root (o : option (list N)) : sx :=
+  match o with Some h => SB h | None => SErr 98 end.
+Definition peek_with (q : query → answer) (a : addr) (k : slot) : sx :=
+  SL [enc_answer (q (QState a k)); enc_answer (q (QCommitted a k)); enc_answer (q (QExist a))].
+
+(* one run-level step of the implementation model: new state, and the observation
+   without the full dump *)
+Definition rstep_j (j : jstate) (o : rop) : jstate * sx * bool :=
+  match o with
+  | ROp o => let '(j', w) := step_j j o in (j', enc_out w, true)
+  | RRoot r => let '(j', w) := step_j j (OFinalise r) in (j', SL [enc_out w; enc_root (root_j K j')], true)
+  | RPeek a k => (j, peek_with (query_j j) a k, false)
+  end.
+Definition rstep_r (s : rstate) (o : rop) : rstate * sx * bool :=
+  match o with
+  | ROp o => let '(s', w) := step_r s o in (s', enc_out w, true)
+  | RRoot r => let '(s', w) := step_r s (OFinalise r) in (s', SL [enc_out w; enc_root (root_r K s')], true)
+  | RPeek a k => (s, peek_with (query_r s) a k, false)
+  end.
+
+Fixpoint run_dump_j (j : jstate) (ops : list rop) : list sx :=
   match ops with
   | [] => []
   | o :: rest =>
-      let '(s', w) := step_r s o in
-      SL [enc_out w; dump_with (query_r s')] :: run_dump_r s' rest
+      let '(j', x, dump) := rstep_j j o in
+      (if j_bad j' then SErr 99 else if dump then SL [x; dump_with (query_j j')] else x) :: run_dump_j j' rest
+  end.
+
+Fixpoint run_dump_r (s : rstate) (ops : list rop) : list sx :=
+  match ops with
+  | [] => []
+  | o :: rest =>
+      let '(s', x, dump) := rstep_r s o in
+      (if dump then SL [x; dump_with (query_r s')] else x) :: run_dump_r s' rest
   end.
 
 (* case (db ops) : dump after every op;  case (db ops 1) : "quiet" — only the return
    values per op and ONE dump at the end (the implementation's getters fill read caches,
    so a history observed only at its end exercises the unloaded-cache paths) *)
-Definition dec_case (c : sx) : option (database * list op * bool) :=
+Definition dec_case (c : sx) : option (database * list rop * bool) :=
   match c with
   | SL (db :: ops :: rest) =>
-      match sx_list_of dec_dbacct db, sx_list_of dec_op ops, rest with
+      match sx_list_of dec_dbacct db, sx_list_of dec_rop ops, rest with
       | Some db, Some ops, [] => Some (list_to_map db, ops, false)
       | Some db, Some ops, [SI 1%Z] => Some (list_to_map db, ops, true)
       | _, _, _ => None
@@ -128,13 +169,13 @@ Definition dec_case (c : sx) : option (database * list op * bool) :=
   | _ => None
   end.
 
-Fixpoint run_quiet_j (j : jstate) (ops : list op) : list sx * jstate :=
+Fixpoint run_quiet_j (j : jstate) (ops : list rop) : list sx * jstate :=
   match ops with
   | [] => ([], j)
   | o :: rest =>
-      let '(j', w) := step_j j o in
+      let '(j', x, _) := rstep_j j o in
       let '(l, jf) := run_quiet_j j' rest in
-      ((if j_bad j' then SErr 99 else enc_out w) :: l, jf)
+      ((if j_bad j' then SErr 99 else x) :: l, jf)
   end.
 
 (* Cross-check of the refinement statement itself, on every case: 1 unless the history
@@ -145,20 +186,32 @@ Proof. solve_decision. Defined.
 Global Instance answer_eq_dec : EqDecision answer.
 Proof. solve_decision. Defined.
 
-Fixpoint agree_run (j : jstate) (s : rstate) (ops : list op) : bool :=
+Definition rop_op (o : rop) : option op :=
+  match o with ROp o => Some o | RRoot r => Some (OFinalise r) | RPeek _ _ => None end.
+
+Fixpoint agree_run (j : jstate) (s : rstate) (ops : list rop) : bool :=
   match ops with
   | [] => true
-  | o :: rest =>
-      let '(j', w) := step_j j o in
-      let '(s', w') := step_r s o in
-      bool_decide (w = w') && forallb (λ q, bool_decide (query_j j' q = query_r s' q)) all_queries
-      && agree_run j' s' rest
+  | ro :: rest =>
+      match rop_op ro with
+      | None => agree_run j s rest
+      | Some o =>
+          let '(j', w) := step_j j o in
+          let '(s', w') := step_r s o in
+          bool_decide (w = w') && forallb (λ q, bool_decide (query_j j' q = query_r s' q)) all_queries
+          && (match ro with RRoot _ => bool_decide (root_j K j' = root_r K s') | _ => true end)
+          && agree_run j' s' rest
+      end
   end.
 
-Fixpoint hist_ok_b (j : jstate) (ops : list op) : bool :=
+Fixpoint hist_ok_b (j : jstate) (ops : list rop) : bool :=
   match ops with
   | [] => true
-  | o :: rest => op_ok j o && hist_ok_b (step_j j o).1 rest
+  | ro :: rest =>
+      match rop_op ro with
+      | None => hist_ok_b j rest
+      | Some o => op_ok j o && hist_ok_b (step_j j o).1 rest
+      end
   end.
 
 Definition C13_run (c : sx) : sx :=
